@@ -185,7 +185,7 @@ def limits_of(cfg, ep):
 FULLREC = dict(params=False, rng=True, inputs=True, state=True, output=True)
 
 
-def async_suite(chk, n_graphs, variants, max_nodes=4, nproc=8, gen=None, model_seeds=(1,)):
+def async_suite(chk, n_graphs, variants, max_nodes=4, nproc=8, gen=None, model_seeds=(1,), per_job_timeout=60, retries=2, lenient=False):
     """Generate n_graphs lattice graphs; run each under every variant (dict name -> job overrides) on the implementation;
     run the model (one run per model seed = random actor order) with the row limits of the first variant.
     Returns list of dict(gid, cfg, runs={variant: episode-or-error}, phases, models=[...])"""
@@ -195,13 +195,13 @@ def async_suite(chk, n_graphs, variants, max_nodes=4, nproc=8, gen=None, model_s
         cfg = (gen or gen_cfg)(random.Random(rnd.getrandbits(32)), max_nodes=max_nodes)
         graphs.append(dict(gid=g, cfg=cfg, runs={}, skipped=None))
     pending = list(graphs)
-    for attempt in range(3):
+    for attempt in range(retries + 1):
         jobs = []
         for G in pending:
             for vn, ov in variants.items():
                 j = dict(id=f"{G['gid']}:{vn}", cfg=G["cfg"], drive="reset_step", steps=G["cfg"]["steps"], record=dict(FULLREC))
                 j.update(ov); jobs.append(j)
-        res = run_jobs(jobs, nproc=nproc)
+        res = run_jobs(jobs, nproc=nproc, per_job_timeout=per_job_timeout)
         again = []
         for G in pending:
             G["runs"] = {}
@@ -211,8 +211,9 @@ def async_suite(chk, n_graphs, variants, max_nodes=4, nproc=8, gen=None, model_s
                 if "error" in r: G["runs"][vn] = r; bad = bad or r["error"]; continue
                 G["node_phase"], G["conn_phase"] = r["node_phase"], r["conn_phase"]
                 G["runs"][vn] = r
-                if any("error" in ep["record"] for ep in r["episodes"]): bad = bad or "record_unavailable"
-            if bad == "record_unavailable" and attempt < 2:
+                if any("error" in ep["record"] for ep in r["episodes"]) and (vn == next(iter(variants)) or not lenient):
+                    bad = bad or "record_unavailable"
+            if bad == "record_unavailable" and attempt < retries:
                 G["cfg"]["steps"] *= 2; again.append(G)   # a connection without a consumed message: lengthen the episode
             else:
                 G["skipped"] = bad if bad and bad.startswith(("record_unavailable", "RecursionError", "ValueError", "NotImplementedError", "AssertionError")) else None
@@ -228,6 +229,7 @@ def async_suite(chk, n_graphs, variants, max_nodes=4, nproc=8, gen=None, model_s
         lim = {n: 0 for n in G["cfg"]["nodes"]}
         for vn in variants:
             for ep in G["runs"][vn]["episodes"]:
+                if "error" in ep["record"]: continue
                 for n, v in limits_of(G["cfg"], ep).items(): lim[n] = max(lim[n], v)
         for ms in model_seeds:
             cases.append((G["cfg"], G["node_phase"], G["conn_phase"], lim, ms)); idx.append(G)
